@@ -941,6 +941,27 @@ struct Runner {
 				// the child died while running P[done]: decide and attribute by running that case alone
 				const Pending &c = P[done];
 				if (trace()) fprintf(stderr, "[%.1f] child ended (status %d) at %s; isolating\n", drv::now() - R.t0, st, c.id.c_str());
+				// a site that was already confirmed in isolation per_key times: trust the report of the batch child (saves two forks)
+				if (!Forker::is_timeout(st))
+				{
+					std::string err;
+					F.read_err(err);
+					Res rb;
+					rb.kind = Res::VIOLATION;
+					Forker::analyse_report(err, rb);
+					if (!rb.vkind.empty())
+					{
+						std::string key = rb.key(T.keyname.empty() ? T.name : T.keyname);
+						std::map<std::string, unsigned>::iterator it = viol_emitted.find(key);
+						if (it != viol_emitted.end() && it->second >= per_key)
+						{
+							record(T, T.name + "/" + T.seedname + "/" + c.id, c.cls, c.data, rb);
+							R.counters["violations-not-reisolated"]++;
+							done++;
+							continue;
+						}
+					}
+				}
 				Res r = F.run([&]() { return T.run(c.data); });
 				if (!r.violation() && Forker::is_timeout(st))
 					r.slow = true;      // the per-case watchdog fired inside the batch, alone the case terminates: slow, not a violation
